@@ -43,7 +43,9 @@ ASSUMPTIONS = [
     "end_replication() is only issued where its only caller (the simulator) could be: initialised and not ended",
     "STARTING/STOPPING notifications of accepted commands are not part of the property and are ignored",
     "the timestamp of END_REPLICATION after a user-issued end_replication() races with the clock write and is not asserted",
-    "interleavings are explored only at notification/handler rendezvous points (see DESIGN.md section 7)",
+    "interleavings are explored only at notification/handler rendezvous points (see DESIGN.md section 7), plus one "
+    "white-box rendezvous in the harness (read of the replication state by the run thread after it wrote STOPPED)",
+    "cleanup() issued from a listener of a command that is still in progress is outside its documented use and not generated",
 ]
 NONTRIVIAL_FLOOR = 0.15
 EXHAUSTIVE_NOTE = "all command sequences up to length 4 (quick) / 6 (thorough) on the float model and 3 / 5 on the int model over the 10-letter alphabet, both models"
@@ -346,6 +348,19 @@ def overlap_schedules(tier):
         sch.append({"overlap": True, "hold": hold, "cmd": "start", "issuer": "helper", "cmd_hold": "STARTING"})
         sch.append({"overlap": True, "hold": hold, "cmd": "rut", "issuer": "helper", "cmd_hold": "STARTING"})
     rapid = [{"overlap": True, "rapid": 4 if tier == "quick" else 12, "starter": st_} for st_ in ("start", "rut")]
+    # commands issued re-entrantly from a listener of the command's OWN notification (on the commanding thread)
+    for outer, notes in (("start", ("START_REPLICATION", "STARTING")), ("rut", ("START_REPLICATION", "STARTING")),
+                         ("start-after-pause", ("STARTING",)), ("step", ("START_REPLICATION", "START")),
+                         ("stop", ("STOPPING",))):
+        for note in notes:
+            for inner in OCMDS:
+                if inner == "cleanup":
+                    continue    # cleanup() from a listener of a command that is still in progress: outside its
+                                # documented use ("clean up after a replication has finished"), see ASSUMPTIONS
+                rapid.append({"overlap": True, "reentrant": note, "outer": outer, "cmd": inner})
+    # the tail of the run thread's stop transition: after it has written STOPPED, before it parks again
+    for cmd in ("start", "rut", "step"):
+        rapid.append({"overlap": True, "tail": "after-STOPPED-write", "cmd": cmd})
     if tier == "quick":
         keep = []
         for s in sch:
@@ -365,6 +380,10 @@ def overlap_schedules(tier):
 def sched_id(c):
     if "rapid" in c:
         return "rapid/%s/%d" % (c["starter"], c["rapid"])
+    if "reentrant" in c:
+        return "reentrant/%s@%s/%s" % (c["outer"], c["reentrant"], c["cmd"])
+    if "tail" in c:
+        return "tail/%s/%s" % (c["tail"], c["cmd"])
     return "%s/%s/%s/%s" % (c["hold"], c["cmd"], c["issuer"], c["cmd_hold"] or "-")
 
 
@@ -526,10 +545,213 @@ def run_rapid(c):
     return out
 
 
+def run_reentrant(c):
+    """a command issued from a listener of the outer command's own notification, on the commanding thread"""
+    from pydsol.core.utils import DSOLError
+    out = Outcome()
+    sid = sched_id(c)
+    out.label("overlap", "reentrant", "cmd=" + c["cmd"])
+    out.nontrivial = True
+    outer = c["outer"]
+    long_run = outer == "stop"
+    prog = RAPID_PROG if long_run else PROGS[0]
+    ref = RefSim(PROGS[0])
+    ref.initialize()
+    ref.run()
+    full_trace = ref.model_trace()
+    h = Harness(prog)
+    sim = h.sim
+    box = {}
+    try:
+        h.initialize()
+        rec = h.rec
+        h.model.on_exec = lambda m, seq, node: rec.log.append(["EXEC", enc_obs(m.simulator.simulator_time), seq])
+        rec.hooks.pop("WARMUP", None)
+        if outer == "start-after-pause":
+            e0 = h.run_piece(["run_up_to", fx(5.0)])
+            if e0 is not None:
+                raise Inconclusive("set-up run failed: %r" % e0)
+        if long_run:
+            sim.start()
+        main = threading.current_thread()
+
+        def hook(entry):
+            if threading.current_thread() is main and "done" not in box:
+                box["done"] = True
+                box["state_in_listener"] = sim.run_state.name
+                box["err"] = _issue(sim, h, c["cmd"])
+        rec.hooks[c["reentrant"]] = hook
+        if outer in ("start", "start-after-pause"):
+            oerr = _issue(sim, h, "start")
+        elif outer == "rut":
+            oerr = _issue(sim, h, "rut")
+        elif outer == "step":
+            oerr = _issue(sim, h, "step")
+        else:
+            oerr = _issue(sim, h, "stop")
+        status = h.settle(allow_limbo=True)
+        if "done" not in box:
+            raise Inconclusive("notification %s not seen on the commanding thread" % c["reentrant"])
+        err = box.get("err")
+        out.label("result=" + ("refused" if isinstance(err, DSOLError) else "accepted" if err is None else "raised"))
+        if status != "quiet":
+            out.fail("overlap-limbo:" + sid, {"status": status, "state": [sim.run_state.name, sim.replication_state.name]})
+            return out
+        for e_, what in ((err, "inner"), (oerr, "outer")):
+            if e_ is not None and not isinstance(e_, DSOLError):
+                out.fail("overlap-raised-%s:%s" % (type(e_).__name__, sid), what + " " + repr(e_))
+        # while a start/step/stop is in progress the simulator is starting/running: start-like commands and
+        # initialize must be refused (documented: "when the simulator was already started an exception will be
+        # thrown"), whatever notification the listener is handling
+        if c["cmd"] in ("start", "step", "rut", "init") and err is None:
+            out.fail("reentrant-command-accepted:" + sid, {"state_in_listener": box.get("state_in_listener")})
+        pair = (sim.run_state.name, sim.replication_state.name)
+        if pair not in CONSISTENT:
+            out.fail("overlap-inconsistent-state:" + sid, pair)
+            return out
+        reset = err is None and c["cmd"] in ("init", "cleanup")
+        if not reset and not long_run:
+            grammar(out, rec.log, fx(2.5), sid)
+        if out.disc or long_run:
+            return out
+        if pair == ("NOT_INITIALIZED", "NOT_INITIALIZED"):
+            h.rec = Recorder()
+            h.initialize()
+            h.model.on_exec = None
+        if (sim.run_state.name, sim.replication_state.name) != ("ENDED", "ENDED"):
+            e2 = h.run_piece(["start"])
+            if e2 is not None:
+                out.fail("overlap-completion-refused:" + sid, repr(e2))
+        final = [t for t in h.model.trace if t[0] != "W"]
+        if (sim.run_state.name, sim.replication_state.name) != ("ENDED", "ENDED"):
+            out.fail("overlap-completion-not-ended:" + sid, [sim.run_state.name, sim.replication_state.name])
+        elif final != full_trace:
+            out.fail("overlap-events-lost-or-duplicated:" + sid, {"got": final, "want": full_trace})
+    finally:
+        try:
+            if sim.run_state.name in ("STARTED", "STARTING"):
+                sim.stop()
+        except Exception:
+            pass
+        if h.finish():
+            out.fail("overlap-thread-leak:" + sid, None)
+    out.info = {"schedule": sid}
+    return out
+
+
+def run_tail(c):
+    """A command issued after the run thread has written STOPPED but before it parks again.  There is no
+    notification in that window, so the harness creates a rendezvous: a simulator subclass whose
+    `_replication_state` attribute is a property; the run thread reads it right after writing STOPPED
+    (harness-only white-box hook, nothing in /repo).  If the attribute is no longer read there, the schedule is
+    inconclusive, never a violation."""
+    from pydsol.core.simulator import DEVSSimulatorFloat, RunState
+    from pydsol.core.utils import DSOLError
+    out = Outcome()
+    sid = sched_id(c)
+    out.label("overlap", "tail", "cmd=" + c["cmd"])
+    out.nontrivial = True
+    reached = threading.Event()
+    release = threading.Event()
+    armed = {"on": False}
+
+    class TailSim(DEVSSimulatorFloat):
+        @property
+        def _replication_state(self):
+            if armed["on"] and threading.current_thread().name == self.name \
+                    and self.__dict__.get("_run_state") == RunState.STOPPED:
+                armed["on"] = False
+                reached.set()
+                release.wait(WAIT_S * 2)
+            return self.__dict__["_rs_value"]
+
+        @_replication_state.setter
+        def _replication_state(self, v):
+            self.__dict__["_rs_value"] = v
+
+    prog = PROGS[0]
+    ref = RefSim(prog)
+    ref.initialize()
+    ref.run()
+    full_trace = ref.model_trace()
+    from vlib.simharness import _counter
+    sim = TailSim("vsim-%d" % next(_counter))
+    h = Harness(prog, sim=sim)
+    box = {}
+    try:
+        h.initialize()
+        rec = h.rec
+        h.model.on_exec = lambda m, seq, node: rec.log.append(["EXEC", enc_obs(m.simulator.simulator_time), seq])
+        rec.hooks.pop("WARMUP", None)
+        armed["on"] = True
+        st_th = threading.Thread(target=lambda: box.setdefault("e0", _issue(sim, h, "rut5")), name="verif-starter")
+
+        def first_run():
+            try:
+                sim.run_up_to(5.0)
+            except Exception as e:
+                box["e0"] = e
+        st_th = threading.Thread(target=first_run, name="verif-starter")
+        st_th.start()
+        if not reached.wait(WAIT_S):
+            release.set()
+            st_th.join(WAIT_S)
+            raise Inconclusive("tail rendezvous not reached (worker no longer reads the replication state there)")
+        st_th.join(WAIT_S)
+        # the run thread has written STOPPED and is held before parking; the command comes from this thread
+        cm_box = {}
+
+        def commander():
+            cm_box["err"] = _issue(sim, h, c["cmd"])
+        cm = threading.Thread(target=commander, name="verif-commander")
+        cm.start()
+        cm.join(0.2)          # start() blocks up to 1 s waiting for the run flag; let it get to the wake-up
+        release.set()
+        cm.join(WAIT_S * 2)
+        status = h.settle(allow_limbo=True)
+        err = cm_box.get("err")
+        out.label("result=" + ("refused" if isinstance(err, DSOLError) else "accepted" if err is None else "raised"))
+        if status != "quiet":
+            out.fail("overlap-limbo:" + sid, {"status": status, "state": [sim.run_state.name, sim.replication_state.name]})
+            return out
+        if err is not None and not isinstance(err, DSOLError):
+            out.fail("overlap-raised-%s:%s" % (type(err).__name__, sid), repr(err))
+        pair = (sim.run_state.name, sim.replication_state.name)
+        if pair not in CONSISTENT:
+            out.fail("overlap-inconsistent-state:" + sid, pair)
+            return out
+        if err is None and c["cmd"] == "start" and pair != ("ENDED", "ENDED"):
+            out.fail("overlap-start-returned-but-nothing-ran:" + sid, pair)
+        if err is None and c["cmd"] == "rut" and pair == ("STOPPED", "STARTED") and enc_obs(sim.simulator_time) != fx(8.5):
+            out.fail("overlap-run-up-to-returned-but-did-not-run:" + sid, enc_obs(sim.simulator_time))
+        grammar(out, rec.log, fx(2.5), sid)
+        if out.disc:
+            return out
+        if pair != ("ENDED", "ENDED"):
+            e2 = h.run_piece(["start"])
+            if e2 is not None:
+                out.fail("overlap-completion-refused:" + sid, repr(e2))
+        final = [t for t in h.model.trace if t[0] != "W"]
+        if (sim.run_state.name, sim.replication_state.name) != ("ENDED", "ENDED"):
+            out.fail("overlap-completion-not-ended:" + sid, [sim.run_state.name, sim.replication_state.name])
+        elif final != full_trace:
+            out.fail("overlap-events-lost-or-duplicated:" + sid, {"got": final, "want": full_trace})
+    finally:
+        release.set()
+        if h.finish():
+            out.fail("overlap-thread-leak:" + sid, None)
+    out.info = {"schedule": sid}
+    return out
+
+
 def run_overlap(c):
     from pydsol.core.utils import DSOLError
+    if "tail" in c:
+        return run_tail(c)
     if "rapid" in c:
         return run_rapid(c)
+    if "reentrant" in c:
+        return run_reentrant(c)
     out = Outcome()
     sid = sched_id(c)
     out.label("overlap", "hold=" + c["hold"], "cmd=" + c["cmd"], "issuer=" + c["issuer"])
